@@ -23,15 +23,15 @@ func init() {
 }
 
 type metaCase struct {
-	kind    string
-	tree    Tree   // include/exclude files + config
-	a, b    string // the two program texts
-	resA    CLIResult
-	resB    CLIResult
-	input   map[string]interface{}
-	expectA string // "" | "fail": A must fail
-	fsArg   string
-	cfg     [6]string
+	kind      string
+	tree      Tree   // include/exclude files + config
+	a, b      string // the two program texts
+	resA      CLIResult
+	resB      CLIResult
+	input     map[string]interface{}
+	expectA   string // "" | "fail": A must fail
+	fsArg     string
+	cfg       [6]string
 	orderFail string
 }
 
@@ -368,6 +368,12 @@ func suiteC06Except(env *Env, res *Result) {
 	var cases []*metaCase
 	for i := 0; i < n; i++ {
 		withDef := r.Chance(1, 4)
+		// one case in five: two include files that define the same name differently go through the
+		// same exclude files, and the exclusion that matters is written with that name
+		wantTwo := r.Chance(1, 5)
+		if wantTwo {
+			withDef = true
+		}
 		var flines []string
 		if withDef {
 			flines = append(flines, "##!> define d "+r.Pick([]string{"[0-9]", "q", "v+"}))
@@ -383,9 +389,15 @@ func suiteC06Except(env *Env, res *Result) {
 				flines = append(flines, r.Pick([]string{"", "##! c", "  "}))
 			}
 		}
+		if wantTwo {
+			flines = append(flines, "x{{d}}")
+		}
 		ftext := strings.Join(flines, "\n") + "\n"
 		tree := Tree{"regex-assembly/include/": "", "regex-assembly/exclude/": "", "regex-assembly/include/f.ra": ftext}
 		nx := r.Range(0, 3)
+		if wantTwo && nx == 0 {
+			nx = 1
+		}
 		var xnames []string
 		var xentries [][]string
 		fEntries, _, _, _ := ownBuffer(ftext)
@@ -403,6 +415,9 @@ func suiteC06Except(env *Env, res *Result) {
 				} else {
 					xl = append(xl, r.Pick(words[:11]))
 				}
+			}
+			if wantTwo && k == 0 {
+				xl = append(xl, "x{{d}}")
 			}
 			name := fmt.Sprintf("x%d", k)
 			dir := r.Pick([]string{"exclude", "exclude", "include"})
@@ -450,34 +465,63 @@ func suiteC06Except(env *Env, res *Result) {
 			directive += " -- " + strings.Join(pairs, " ")
 		}
 		// by hand
-		var hand []string
-		seenLater := func(idx int) bool {
-			for j := idx + 1; j < len(fEntries); j++ {
-				if fEntries[j] == fEntries[idx] {
-					return true
-				}
-			}
-			return false
-		}
-		for idx, e := range fEntries {
-			if useExcept {
-				if excluded[e] {
-					continue
-				}
-				if seenLater(idx) {
-					continue // a duplicate contributes once (alternation)
-				}
-			}
-			for k, v := range pm {
-				if strings.HasSuffix(e, k) {
-					e = strings.TrimSuffix(e, k)
-					if v != "\"\"" {
-						e += v
+		byHand := func(fEntries []string, excluded map[string]bool) []string {
+			var hand []string
+			seenLater := func(idx int) bool {
+				for j := idx + 1; j < len(fEntries); j++ {
+					if fEntries[j] == fEntries[idx] {
+						return true
 					}
-					break
+				}
+				return false
+			}
+			for idx, e := range fEntries {
+				if useExcept {
+					if excluded[e] {
+						continue
+					}
+					if seenLater(idx) {
+						continue // a duplicate contributes once (alternation)
+					}
+				}
+				for k, v := range pm {
+					if strings.HasSuffix(e, k) {
+						e = strings.TrimSuffix(e, k)
+						if v != "\"\"" {
+							e += v
+						}
+						break
+					}
+				}
+				hand = append(hand, e)
+			}
+			return hand
+		}
+		hand := byHand(fEntries, excluded)
+		mid := []string{directive}
+		twoUnits := false
+		if useExcept && wantTwo {
+			// a second include file that gives the SAME name another value, filtered through the
+			// SAME exclude files: the exclude files must be read anew with its definitions
+			twoUnits = true
+			gval := r.Pick([]string{"[a-f]", "r", "w*"})
+			glines := []string{"##!> define d " + gval, "x{{d}}"}
+			ng := r.Range(1, 6)
+			for j := 0; j < ng; j++ {
+				glines = append(glines, r.Pick(words))
+			}
+			gtext := strings.Join(glines, "\n") + "\n"
+			tree["regex-assembly/include/g.ra"] = gtext
+			gEntries, _, _, _ := ownBuffer(gtext)
+			gdefs := map[string]string{"d": gval}
+			excludedG := map[string]bool{}
+			for _, xl := range xentries {
+				for _, e := range xl {
+					excludedG[substDefs(e, gdefs)] = true
 				}
 			}
-			hand = append(hand, e)
+			mid = append(mid, strings.Replace(directive, "include-except f ", "include-except g ", 1))
+			hand = append(hand, byHand(gEntries, excludedG)...)
 		}
 		pos := r.Intn(2)
 		build := func(mid []string) string {
@@ -502,7 +546,10 @@ func suiteC06Except(env *Env, res *Result) {
 		if withDef {
 			kind += "+defs"
 		}
-		c := &metaCase{kind: kind, tree: tree, a: build([]string{directive}), b: build(hand), fsArg: fsArgOf(tree)}
+		if twoUnits {
+			kind += "+second-file-same-excludes"
+		}
+		c := &metaCase{kind: kind, tree: tree, a: build(mid), b: build(hand), fsArg: fsArgOf(tree)}
 		c.input = map[string]interface{}{"program": c.a, "by_hand": c.b, "files": tree}
 		cases = append(cases, c)
 	}
@@ -510,7 +557,7 @@ func suiteC06Except(env *Env, res *Result) {
 	// whatever the iteration order of the line map, the result must be a subsequence of F's entries
 	parallelFor(len(cases), func(i int) {
 		c := cases[i]
-		if !strings.Contains(c.kind, "include-except") || strings.Contains(c.kind, "pairs") {
+		if !strings.Contains(c.kind, "include-except") || strings.Contains(c.kind, "pairs") || strings.Contains(c.kind, "second-file") {
 			return
 		}
 		root := mkScratch(env, "c06p")
